@@ -93,10 +93,10 @@ theorem find_toDefG (fs : PFlagsG) (body : Str) :
     `--name<d>` and argument `value` (so the flag's completion is offered, prefixed), and the parser
     gives `value` to that flag and consumes nothing else. -/
 theorem C01_fork_long_attached (fs : PFlagsG) (hd : DelimFree fs) (hn : NamesDistinct fs) (f : PFlagG) (hf : f ∈ fs)
-    (c : Char) (n : Str) (hname : f.name = c :: n) (hc : c ≠ '-' ∧ c ≠ '=') (v : Str) (hv : valueOkG f v = true) (rest : List Str) :
+    (c : Char) (n : Str) (hname : f.name = c :: n) (hc : c ≠ '-' ∧ c ≠ '=') (v : Str) (hv : valueOkG f v = true) (rest : List Str) (wl : Bool) :
     lookupArgG (fs.map PFlagG.toDefG) ('-' :: '-' :: (f.name ++ f.delim :: v)) =
         some ⟨f.toDefG, "--".toList ++ f.name ++ [f.delim], [v]⟩ ∧
-    parseLongG fs (f.name ++ f.delim :: v) rest = .ok ((f.name, v), 0) := by
+    parseLongG fs wl (f.name ++ f.delim :: v) rest = .ok (some (f.name, v), 0) := by
   have hfind := findLongG_attached fs hd hn f hf v
   have hcut := Str.cutChar_append f.delim f.name v (hd f hf f hf)
   constructor
